@@ -380,10 +380,20 @@ impl Debugee {
         let base_addr = func.frame_base_addr(ecx, self)?;
         let cfa = dwarf.get_cfa(self, ecx)?;
         let backtrace = self.unwind(ecx.pid_on_focus())?;
+        // the frame in focus is known by its number: several activations of a recursive
+        // function share one instruction pointer
         let (bt_frame_num, frame) = backtrace
             .iter()
             .enumerate()
-            .find(|(_, frame)| frame.ip == ecx.location().pc)
+            .find(|(num, frame)| {
+                *num == ecx.frame_num() as usize && frame.ip == ecx.location().pc
+            })
+            .or_else(|| {
+                backtrace
+                    .iter()
+                    .enumerate()
+                    .find(|(_, frame)| frame.ip == ecx.location().pc)
+            })
             .expect("frame must exists");
         let return_addr = backtrace.get(bt_frame_num + 1).map(|f| f.ip);
         Ok(FrameInfo {
